@@ -533,6 +533,24 @@ pub fn c17(c: &mut Ctx, b: &Budget) {
             match guarded(|| e.add_salt_in_range(lo2..=hi2)) { Ok(Ok(s)) => { c.check("short-range-refused", lo2 >= 8, "short-salt-accepted", || format!("range {}..={}", lo2, hi2)); check_one(c, &s, lo2, hi2, "add_salt_in_range"); }
                 Ok(Err(_)) => c.check("short-range-refused", lo2 < 8, "valid-salt-refused", || format!("range {}..={}", lo2, hi2)), Err(site) => c.check("no-panic", false, "salt-panic", || site) }
         }
+        // salting an envelope that is salted already: every call adds one more 'salt' assertion and touches nothing else
+        {
+            let mut cur = e.clone();
+            for round in 1..=3usize {
+                let next = match round { 1 => cur.add_salt(), 2 => cur.add_salt_with_len(12).unwrap(), _ => cur.add_salt_instance(Salt::new_with_len(9).unwrap()) };
+                let before = cur.assertions_with_predicate(known_values::SALT).len();
+                let after = next.assertions_with_predicate(known_values::SALT).len();
+                c.check("resalting-adds-one", after == before + 1 && next.assertions().len() == cur.assertions().len() + 1 && cur.assertions().iter().all(|a| next.assertions().iter().any(|x| x.is_identical_to(a))), "salt-shape",
+                    || format!("salting round {}: {} -> {} salt assertions; {} -> {}", round, before, after, shape(&cur), shape(&next)));
+                cur = next;
+            }
+            import(c, &cur);
+            // a pre-salted assertion added with salted = true keeps its salt and gains one
+            let pre = Envelope::new_assertion("pre", 1).add_salt();
+            let twice = e.add_assertion_envelope_salted(pre.clone(), true).unwrap();
+            let found = twice.assertions().into_iter().find(|a| a.subject().digest() == pre.subject().digest());
+            c.check("presalted-keeps-its-salt", found.as_ref().map(|a| a.assertions_with_predicate(known_values::SALT).len() == 2).unwrap_or(false), "salt-shape", || shape(&twice));
+        }
         // add_assertion_salted
         let (p, o) = (format!("pred{}", i % 3), i as u64);
         let a1 = e.add_assertion_salted(p.as_str(), o, true); let a2 = e.add_assertion_salted(p.as_str(), o, true);
@@ -645,6 +663,26 @@ pub fn c18(c: &mut Ctx, b: &Budget) {
             c.check("response-rejects-neither", Response::try_from(neither.clone()).is_err(), "response-accepts-neither", || shape(&neither));
             let wrong = venv.replace_subject(Envelope::new(CBOR::to_tagged_value(40004u64, id)));
             c.check("response-rejects-wrong-tag", Response::try_from(wrong.clone()).is_err(), "response-accepts-wrong-tag", || shape(&wrong));
+            // the subject re-tagged (request, event, an unassigned tag) with its content - ARID or 'Unknown' - left as it is
+            if let Some(leaf) = venv.subject().as_leaf() { if let CBORCase::Tagged(_, inner) = leaf.as_case() {
+                for t in [40010u64, 40012, 40006] {
+                    let w = venv.replace_subject(Envelope::new(CBOR::to_tagged_value(t, inner.clone())));
+                    for via in [w.clone(), through_bytes(&w)] { c.check("response-rejects-wrong-tag", Response::try_from(via.clone()).is_err(), "response-accepts-wrong-tag", || format!("{}: subject re-tagged #6.{}: {}", name, t, shape(&via))); }
+                }
+                let untagged = venv.replace_subject(Envelope::new(inner.clone()));
+                c.check("response-rejects-wrong-tag", Response::try_from(untagged.clone()).is_err(), "response-accepts-wrong-tag", || format!("{}: untagged subject {}", name, shape(&untagged)));
+            } }
+            // both result and error where the added one is decorated (salted, or carrying a note of its own)
+            let (kv_other, val) = if resp.is_ok() { (known_values::ERROR, "e") } else { (known_values::RESULT, "r") };
+            let deco1 = venv.add_assertion_salted(kv_other.clone(), val, true);
+            let deco2 = venv.add_assertion_envelope(Envelope::new_assertion(kv_other.clone(), val).add_assertion(known_values::NOTE, "annotated")).unwrap();
+            for d in [deco1, deco2] { c.check("response-rejects-both", Response::try_from(d.clone()).is_err(), "response-accepts-both-decorated", || format!("{}: result AND error present, one of them decorated: {}", name, shape(&d))); }
+            // ... or the genuine one is decorated and the added one is plain
+            if let Some(g) = venv.assertions().iter().find(|a| a.is_assertion()).cloned() {
+                let stripped = venv.remove_assertion(g.clone());
+                let redecorated = stripped.add_assertion_envelope(g.add_assertion(known_values::NOTE, "annotated")).unwrap().add_assertion(kv_other, val);
+                c.check("response-rejects-both", Response::try_from(redecorated.clone()).is_err(), "response-accepts-both-decorated", || format!("{}: {}", name, shape(&redecorated)));
+            }
         }
         // event
         let mut ev = Event::<String>::new(format!("content {}", i), id);
@@ -922,6 +960,7 @@ pub fn c18_model(c: &mut Ctx, b: &Budget) {
 // ---------------------------------------------------------------------------------- C10 / C11 on both sides
 
 fn catch<T>(f: impl FnOnce() -> T) -> Option<T> { guarded(f).ok() }
+fn c_show(c: &Ctx, r: &str) -> String { c.val(r).show() }
 
 /// C10 with the model in the loop: content key, nonce and sealed messages are made here (real KEMs) and handed to both sides as
 /// explicit arguments; what every private key of the scenario does with every sealed message is stated to the model as facts.
@@ -964,10 +1003,32 @@ pub fn c10_model(c: &mut Ctx, b: &Budget) {
         c.obs(&format!("shape {}", x));
         c.obs(&format!("recipients {}", x));
         let all_kids: Vec<u64> = keys.iter().map(|k| k.0).collect();
+        let ck_cbor = ckobj.to_cbor_data();
+        let keys_ref = &keys;
+        let orig_subject = c.env(&e).map(|x| x.subject());
         let try_all = |c: &mut Ctx, env: &str, what: &str| {
+            // who must open: a key for which some *readable* (not obscured) sealed message of the envelope, of its own scheme,
+            // decrypts to the content key - computed here from the envelope's parts and the real KEM, not from `recipients()`
+            let readable: Vec<bc_components::SealedMessage> = c.env(env).map(|x| x.assertions_with_predicate(known_values::HAS_RECIPIENT).iter()
+                .filter_map(|a| a.subject().as_object()).filter(|o| !o.is_obscured()).filter_map(|o| o.extract_subject::<bc_components::SealedMessage>().ok()).collect()).unwrap_or_default();
+            // an envelope carrying a 'hasRecipient' object that is readable but no sealed message is malformed: `recipients()`
+            // reports the extraction error to everybody; no expectation is attached to it
+            let malformed = c.env(env).map(|x| x.assertions_with_predicate(known_values::HAS_RECIPIENT).iter().filter_map(|a| a.subject().as_object())
+                .any(|o| !o.is_obscured() && o.extract_subject::<bc_components::SealedMessage>().is_err())).unwrap_or(false);
             for kid in &all_kids {
                 let d = c.assign(&format!("decrypt_subject_to_recipient {} {}", env, kid));
                 if c.is_ok(&d) { c.obs(&format!("shape {}", d)); c.count(&format!("outcome-model:{}:opens", what)); } else { c.count(&format!("outcome-model:{}:fails", what)); }
+                if malformed { c.count("branch:malformed-recipient-object"); continue; }
+                let k = keys_ref.iter().find(|k| k.0 == *kid).unwrap();
+                let should = readable.iter().any(|sm| sm.encapsulation_scheme() == k.3.encapsulation_scheme() && catch(|| sm.decrypt(&k.2)).and_then(|r| r.ok()).map(|pt| pt == ck_cbor).unwrap_or(false));
+                let junk_first = readable.iter().any(|sm| sm.encapsulation_scheme() == k.3.encapsulation_scheme() && catch(|| sm.decrypt(&k.2)).and_then(|r| r.ok()).map(|pt| pt != ck_cbor).unwrap_or(false));
+                if should && !junk_first {
+                    let ok = c.env(&d).zip(orig_subject.clone()).map(|(x, s0)| x.subject().is_identical_to(&s0)).unwrap_or(false);
+                    let shown = c_show(c, &d);
+                    c.check("recipient-opens", ok, "recipient-opens", || format!("{}: key {} holds a readable sealed message with the content key but decrypt_subject_to_recipient gave {}", what, kid, shown));
+                } else if !should && !junk_first {
+                    c.check("outsider-fails", !c.is_ok(&d), "outsider-opens", || format!("{}: key {} opened the envelope", what, kid));
+                }
             }
         };
         if c.is_ok(&x) {
@@ -1044,6 +1105,37 @@ pub fn c11_model(c: &mut Ctx, b: &Budget) {
             let regs = if sel.is_empty() { "-".to_string() } else { sel.iter().map(|x| x.0.clone()).collect::<Vec<_>>().join(",") };
             let j = c.assign(&format!("sskr_join {}", regs));
             if c.is_ok(&j) { c.obs(&format!("shape {}", j)); c.count("outcome-model:join:ok"); } else { c.count("outcome-model:join:refused"); }
+            // whatever is recovered is the original subject and nothing else (not the subject plus left-over assertions)
+            if let (Some(x), Some(o)) = (c.env(&j), c.env(&e)) { c.check("join-returns-original-subject", x.is_identical_to(&o.subject()), "join-other-envelope", || format!("sskr_join returned {} for an original with subject {}", shape(&x), shape(&o.subject()))); }
+        }
+        // a second envelope, encrypted under ANOTHER content key and split on its own: quorate share envelopes of both, mixed in one
+        // call.  The first envelope decides what is recovered; the other split's shares (which combine to a key that does not open
+        // it) must not get in the way, whichever identifier the join happens to try first.
+        {
+            let ck2 = c.rng.bytes(32); let nonce2 = c.rng.bytes(12);
+            let enc2 = c.assign(&format!("encrypt_subject {} {} {}", e, hex::encode(&ck2), hex::encode(&nonce2)));
+            let other = sskr_generate(&spec, &SSKRSecret::new(&ck2).unwrap()).unwrap();
+            if c.is_ok(&enc2) && other[0][0].identifier() != split1[0][0].identifier() {
+                let flat_o: Vec<(String, SSKRShare)> = other.iter().flatten().map(|sh| {
+                    let hx = hex::encode(sh.to_cbor_data()); let l = c.assign(&format!("leaf {}", hx)); c.line(format!("fact sskr id {} {}", hx, sh.identifier()));
+                    (c.assign(&format!("add_sskr_share {} {}", enc2, l)), sh.clone()) }).collect();
+                for (first, second) in [(&flat1, &flat_o), (&flat_o, &flat1)] {
+                    let sel: Vec<(String, SSKRShare)> = first.iter().chain(second.iter()).cloned().collect();
+                    let mut order: Vec<u16> = vec![]; let mut by: std::collections::HashMap<u16, Vec<SSKRShare>> = Default::default();
+                    for (_, sh) in &sel { let id = sh.identifier(); if !by.contains_key(&id) { order.push(id); } by.entry(id).or_default().push(sh.clone()); }
+                    for id in &order { let g = &by[id]; let key = g.iter().map(|x| hex::encode(x.to_cbor_data())).collect::<Vec<_>>().join(",");
+                        let out = match catch(|| sskr_combine(g)) { Some(Ok(sec)) => hex::encode(sec.as_ref() as &[u8]), _ => "none".to_string() }; c.line(format!("fact sskr combine {} {}", key, out)); }
+                    let regs = sel.iter().map(|x| x.0.clone()).collect::<Vec<_>>().join(",");
+                    // the iteration order of the library's HashMap varies from call to call: try several times
+                    for _ in 0..6 {
+                        let j = c.assign(&format!("sskr_join {}", regs));
+                        if let Some(o) = c.env(&e) { let ok = c.env(&j).map(|x| x.is_identical_to(&o.subject())).unwrap_or(false);
+                            let shown = c_show(c, &j);
+                            c.check("join-with-two-quorate-splits", ok, "join-refused-quorum", || format!("all shares of two splits (different content keys) presented together: {}", shown)); }
+                    }
+                    c.count("branch:two-quorate-splits");
+                }
+            }
         }
         // an envelope carrying two shares; a junk 'sskrShare' object; an elided share
         let two = { let hx = hex::encode(flat1[flat1.len() - 1].1.to_cbor_data()); let l = c.assign(&format!("leaf {}", hx)); c.assign(&format!("add_sskr_share {} {}", flat1[0].0, l)) };
